@@ -91,7 +91,7 @@ func (_this *Context) GetBuiltArrayAsString() string {
 //   - nextRunesBytes will contain the remaining complete runes. The last
 //     incomplete rune, if any, will be stripped out and buffered for the next
 //     call.
-func (_this Context) StreamStringData(data []byte) (firstRuneBytes []byte, nextRunesBytes []byte) {
+func (_this *Context) StreamStringData(data []byte) (firstRuneBytes []byte, nextRunesBytes []byte) {
 	nextRunesBytes = data
 
 	remainderLength := len(_this.utf8RemainderBuffer)
@@ -104,7 +104,9 @@ func (_this Context) StreamStringData(data []byte) (firstRuneBytes []byte, nextR
 			_this.utf8RemainderBuffer = _this.utf8RemainderBuffer[:remainderLength+bytesCopied]
 			return
 		}
-		firstRuneBytes = _this.utf8RemainderBuffer
+		// Copy the completed rune out of the remainder buffer, which may be
+		// reused below for the next incomplete rune.
+		firstRuneBytes = _this.utf8FirstRuneBacking[:copy(_this.utf8FirstRuneBacking[:], _this.utf8RemainderBuffer)]
 		_this.utf8RemainderBuffer = _this.utf8RemainderBuffer[:0]
 	}
 
